@@ -48,7 +48,9 @@ theorem build_ok_or_err (cfg : Cfg) (d : TyDef) (tag : String) :
 
 /-- THE key theorem: whatever the builder returns satisfies `Ty.wf` — Go integer
 widths, the slice wrapper matches the element wire type, field indexes are
-pairwise distinct and fit a tag, no map codec under a pointer, slice or map. -/
+pairwise distinct and fit a tag, no map codec under a pointer, slice or map, and
+no protobuf repeated form (directly or behind pointers) as the element of a
+length-delimited slice or as the key or value of a map. -/
 theorem build_sound {cfg : Cfg} (hc : cfg.wf) {d : TyDef} (hw : d.widthsOK) (hk : d.keysOK)
     {tag : String} {t : Ty} (h : build cfg d tag = .ok t) : t.wf :=
   Build.build_sound hc hw hk h
@@ -62,6 +64,32 @@ theorem buildFields_sound {cfg : Cfg} (hc : cfg.wf) {name : String} {fs : FieldD
     {cfs : Fields} (h : buildFields cfg fs = .ok cfs) :
     fieldsWf cfs ∧ (∀ f ∈ cfs, f.1 < 2 ^ 61) :=
   Build.buildFields_sound hc hw hk h
+
+/-- corollary of `build_sound` (the `isProtoSlice(subc)` check of the slice arm):
+the element codec of a returned `ProtoSliceWrapper` or `WTLengthSliceWrapper` is
+not, and does not point to, a `ProtoSliceWrapper` — at the top of the returned
+tree; `build_sound` gives the same at every depth. -/
+theorem build_no_proto_slice_elements {cfg : Cfg} (hc : cfg.wf) {d : TyDef} (hw : d.widthsOK)
+    (hk : d.keysOK) {tag : String} {t : Ty} :
+    (build cfg d tag = .ok (.pslice t) → t.isProtoSlice = false) ∧
+    (build cfg d tag = .ok (.lslice t) → t.isProtoSlice = false) := by
+  refine ⟨fun h => ?_, fun h => ?_⟩
+  · have := Build.build_sound hc hw hk h
+    simp only [Ty.wf] at this
+    exact this.2.2.2
+  · have := Build.build_sound hc hw hk h
+    simp only [Ty.wf] at this
+    exact this.2.2.2
+
+/-- corollary of `build_sound` (the `isProtoSlice(valueCodec) ||
+isProtoSlice(keyCodec)` check of `BuildMapCodec`): neither the value codec nor
+the key codec of a returned map codec is, or points to, a `ProtoSliceWrapper`. -/
+theorem build_no_proto_slice_in_maps {cfg : Cfg} (hc : cfg.wf) {d : TyDef} (hw : d.widthsOK)
+    (hk : d.keysOK) {tag : String} {k v : Ty} {p : Bool}
+    (h : build cfg d tag = .ok (.map k v p)) : v.isProtoSlice = false ∧ k.isProtoSlice = false := by
+  have := Build.build_sound hc hw hk h
+  simp only [Ty.wf] at this
+  exact this.2.2.2.2
 
 /-- total + sound in one statement. -/
 theorem build_validated {cfg : Cfg} (hc : cfg.wf) {d : TyDef} (hw : d.widthsOK) (hk : d.keysOK)
@@ -390,6 +418,15 @@ example : build exCfg exDef "" = .ok (.struct "Ex" [
 example : ∃ t, build exCfg exDef "" = .ok t ∧ t.wf :=
   have h : build exCfg exDef "" = .ok _ := rfl
   ⟨_, h, build_sound (cfg := exCfg) (d := exDef) (cfg_wf_nil rfl) (by decide) (by decide) h⟩
+
+/-- the two corollaries are not vacuous: a repeated-form slice of pointers under
+ProtoCompatibleArrays, and a map of length-delimited slices in default mode. -/
+example : (Ty.ptr (.str false)).isProtoSlice = false :=
+  (build_no_proto_slice_elements (cfg := {protoArrays := true}) (d := .slice (.ptr (.basic .str)))
+    (tag := "") (cfg_wf_nil rfl) (by decide) (by decide)).1 rfl
+example : (Ty.lslice (.str false)).isProtoSlice = false ∧ (Ty.str false).isProtoSlice = false :=
+  build_no_proto_slice_in_maps (cfg := {}) (d := .map (.basic .str) (.slice (.basic .str)))
+    (tag := "") (cfg_wf_nil rfl) (by decide) (by decide) rfl
 
 /-- a named map type at top level, proto form. -/
 example : build {} (.named "Index" (.map (.basic .str) (.slice (.basic (.int 64))))) "proto"
